@@ -225,6 +225,15 @@ def h_formatters(sx):
         line = "".join(l.split("  ", 1)[1] if "  " in l else "" for l in text.splitlines() if l.startswith("f") and ".feature" in l)
         want = "".join(chars[st] for _, res in processed for _, st in res)
         sx.check(line == want, "C15.progress2-one-char-per-processed-step", detail=lambda m: dict(det(m), progress2=line, expected=want, text=text[:300]))
+    if "progress3" in names:
+        text = streams["progress3"].getvalue()
+        lines = [l.strip() for l in text.splitlines()]
+        for sname, res in processed:
+            if not res:
+                continue
+            want = "%s  %s" % (sname, "".join(chars[st] for _, st in res))
+            sx.check(want in lines, "C15.progress3-shows-each-processed-step-once",
+                     detail=lambda m, sname=sname, want=want: dict(det(m), scenario=sname, expected_line=want, text=text[:600]))
     return {"lineup": names, "events": len(rec1.ev), "json": ("json" in names)}
 
 
